@@ -580,6 +580,8 @@ func cmdHashes(args []string) int {
 	c := getCheck(id)
 	if *procs > 0 {
 		runtime.GOMAXPROCS(*procs)
+	} else if c.Procs() == 1 {
+		runtime.GOMAXPROCS(1)
 	}
 	seed := envSeed()
 	for i := *from; i < *to; i++ {
